@@ -82,6 +82,9 @@ pub trait Handler {
         Ok(())
     }
     fn on_close(&mut self, _: CloseCode, _: &str) {}
+    /// a connection that fails with a protocol / io error: the real crate calls this and then still
+    /// calls `on_close` when the connection is torn down
+    fn on_error(&mut self, _: Error) {}
 }
 
 #[derive(Clone, Debug)]
@@ -174,6 +177,11 @@ where
                         }
                         Frame::Close => {
                             closed = Some(CloseCode::Normal);
+                            break;
+                        }
+                        Frame::Broken => {
+                            conns[i].handler.on_error(Error("protocol error: broken frame".to_string()));
+                            closed = Some(CloseCode::Abnormal);
                             break;
                         }
                     }
